@@ -511,6 +511,11 @@ def gen_trees(seed, count, maxdepth):
                  ("seq", [("look", False, ("chain", [("skip_until", [b"z"]), ("str", b"z")])), ("charby", "any")]),
                  ("seq", [("opt", ("look", True, ("chain", [("skip", 1), ("charby", "digit")]))), ("rule", 2, ("charby", "alpha"))]),
                  ("look", False, ("chain", [("push", ("charby", "any")), ("str", b"q")]))]
+    # every construct that absorbs a failure (? * !) around every kind of counted call, followed by something that still has to match
+    for inner in (("rule", 1, ("str", b"a")), ("seq", [("str", b"a"), ("str", b"b")]), ("atomic", 0, ("str", b"a")), ("look", True, ("str", b"a")), ("opt", ("str", b"a")),
+                  ("restore_on_err", ("str", b"a")), ("rep", ("str", b"a")), ("choice", [("str", b"a"), ("str", b"b")])):
+        stackish += [("seq", [("opt", inner), ("charby", "any")]), ("seq", [("rep", ("seq", [inner, ("str", b"c")])), ("opt", ("charby", "any"))]), ("seq", [("look", False, inner), ("charby", "any")]),
+                     ("rule", 3, ("choice", [("seq", [inner, ("str", b"!")]), ("charby", "any")]))]
     stackish += [("pop",), ("peek",),
                  ("rep", ("rule", 1, ("str", b"a"))), ("opt", ("rule", 1, ("seq", [("str", b"a"), ("str", b"b")]))),
                  ("look", False, ("rule", 1, ("str", b"a"))), ("rule", 1, ("seq", [("str", b"a"), ("rep", ("rule", 2, ("range", 0x61, 0x7a)))])),
